@@ -6,7 +6,6 @@ package gitinterface
 import (
 	"fmt"
 	"sort"
-	"strings"
 )
 
 // GetFilePathsChangedByCommit returns the paths changed by the commit relative
@@ -25,18 +24,18 @@ func (r *Repository) GetFilePathsChangedByCommit(commitID Hash) ([]string, error
 	}
 
 	if len(parentCommitIDs) == 0 {
-		filePaths, err := r.executor("ls-tree", "--name-only", "-r", commitID.String()).executeString()
+		filePaths, err := r.executor("ls-tree", "--name-only", "-r", "-z", commitID.String()).executeRawString()
 		if err != nil {
 			return nil, fmt.Errorf("unable to identify all commit file paths: %w", err)
 		}
 
-		paths := strings.Split(filePaths, "\n")
+		paths := splitNULTerminated(filePaths)
 		return paths, nil
 	}
 
 	if len(parentCommitIDs) > 1 {
 		// Check if tree matches last commit
-		stdOut, err := r.executor("diff-tree", "--no-commit-id", "--name-only", "-r", parentCommitIDs[len(parentCommitIDs)-1].String(), commitID.String()).executeString()
+		stdOut, err := r.executor("diff-tree", "--no-commit-id", "--name-only", "-r", "-z", parentCommitIDs[len(parentCommitIDs)-1].String(), commitID.String()).executeRawString()
 		if err != nil {
 			return nil, fmt.Errorf("unable to diff commit against last parent commit: %w", err)
 		}
@@ -46,7 +45,7 @@ func (r *Repository) GetFilePathsChangedByCommit(commitID Hash) ([]string, error
 
 		pathSet := map[string]bool{}
 		for _, parentCommitID := range parentCommitIDs {
-			stdOut, err := r.executor("diff-tree", "--no-commit-id", "--name-only", "-r", parentCommitID.String(), commitID.String()).executeString()
+			stdOut, err := r.executor("diff-tree", "--no-commit-id", "--name-only", "-r", "-z", parentCommitID.String(), commitID.String()).executeRawString()
 			if err != nil {
 				return nil, fmt.Errorf("unable to diff commit against parent: %w", err)
 			}
@@ -54,7 +53,7 @@ func (r *Repository) GetFilePathsChangedByCommit(commitID Hash) ([]string, error
 				continue
 			}
 
-			paths := strings.Split(stdOut, "\n")
+			paths := splitNULTerminated(stdOut)
 			for _, path := range paths {
 				if path == "" {
 					continue
@@ -75,7 +74,7 @@ func (r *Repository) GetFilePathsChangedByCommit(commitID Hash) ([]string, error
 		return paths, nil
 	}
 
-	stdOut, err := r.executor("diff-tree", "--no-commit-id", "--name-only", "-r", fmt.Sprintf("%s~1", commitID.String()), commitID.String()).executeString()
+	stdOut, err := r.executor("diff-tree", "--no-commit-id", "--name-only", "-r", "-z", fmt.Sprintf("%s~1", commitID.String()), commitID.String()).executeRawString()
 	if err != nil {
 		return nil, fmt.Errorf("unable to diff commit against parent: %w", err)
 	}
@@ -83,6 +82,6 @@ func (r *Repository) GetFilePathsChangedByCommit(commitID Hash) ([]string, error
 		return nil, nil
 	}
 
-	paths := strings.Split(stdOut, "\n")
+	paths := splitNULTerminated(stdOut)
 	return paths, nil
 }
